@@ -357,7 +357,15 @@ func (ctx *Context) LoadNameWithDetail(name string, isRaw bool, useHook bool, de
 	// 先local再global
 	curCtx := ctx
 	for {
+		// 在上层作用域找到的计算值由上层 ctx 执行；算力计数要随当前求值带上去、再带回来，
+		// 否则这部分计算不计入当前帧，返回时还会被较小的旧计数覆盖
+		if curCtx != ctx {
+			curCtx.NumOpCount = ctx.NumOpCount
+		}
 		ret := curCtx.LoadNameLocalWithDetail(name, isRaw, detail)
+		if curCtx != ctx {
+			ctx.NumOpCount = curCtx.NumOpCount
+		}
 
 		if curCtx.Error != nil {
 			ctx.Error = curCtx.Error
